@@ -41,19 +41,21 @@ def ltOpt (a : Int) : Option Int → Bool
   | some b => decide (a < b)
 
 /-- The main loop of `filter_dominated_operations` (including the early `return [operation]` on the
-first zero-duration operation, which discards what was accumulated). -/
-def domLoop (I : Instance) (s : State) (L0 : List OpRef) : List OpRef → List OpRef → List OpRef
+first zero-duration operation, which discards what was accumulated).  `st j m` is
+`dispatcher.start_time(op, m)` and `me m` is `min_machine_end_times[m]`. -/
+def domLoop (I : Instance) (st : Nat → Nat → Int) (me : Nat → Option Int) : List OpRef → List OpRef → List OpRef
   | [], acc => acc.reverse
   | r :: rest, acc =>
     match getOp I r.1 r.2 with
-    | none => domLoop I s L0 rest acc
+    | none => domLoop I st me rest acc
     | some op =>
       if op.dur == 0 then [r] else
-      if op.machines.any (fun m => ltOpt (startTime s r.1 m) (minEnd I s L0 m))
-      then domLoop I s L0 rest (r :: acc) else domLoop I s L0 rest acc
+      if op.machines.any (fun m => ltOpt (st r.1 m) (me m))
+      then domLoop I st me rest (r :: acc) else domLoop I st me rest acc
 
 /-- `filter_dominated_operations`. -/
-def filterDominated (I : Instance) (s : State) (L : List OpRef) : List OpRef := domLoop I s L L []
+def filterDominated (I : Instance) (s : State) (L : List OpRef) : List OpRef :=
+  domLoop I (startTime s) (minEnd I s L) L []
 
 /-- `_get_immediate_machines` as a predicate on machine ids. -/
 def immediateMachine (I : Instance) (s : State) (L : List OpRef) (m : Nat) : Bool :=
